@@ -101,3 +101,25 @@ Proof.
   split; [repeat constructor; cbn; try discriminate; try lia|].
   vm_compute. split; reflexivity.
 Qed.
+
+(* ---------- Write calls -> bytes of the stream -> Read calls, composed ---------- *)
+From KV Require Import Proofs.BinCoderProofs Proofs.EndToEnd.
+(* The Writer state machine cuts the data of any sequence of Write calls into blocks; the container
+   model turns them into the bytes of the compressed stream; the reader models parse those bytes (any
+   buffer size, any short-read schedule of the source) and the Reader state machine serves any sequence
+   of Read calls from the frames: the caller gets back exactly what was written, then end of stream.
+   NONE / NONE pipeline, block size up to 8 MiB, every job count and size hint on both sides. *)
+Theorem C01_end_to_end_none : forall (hash : list N -> N) (evalid tvalid : N -> bool) c jw hw jr hr
+    (ws : list (list N)) (ns : list N) nframes rbuf sched,
+  cfg_ok evalid tvalid c ->
+  (h_ck c = 1%N -> forall l, (hash l < 2 ^ 32)%N) -> (h_ck c = 2%N -> forall l, (hash l < 2 ^ 64)%N) ->
+  (h_bsize c <= 8388608)%N -> bytes_ok (concat ws) -> (length (concat ws) < nframes)%nat ->
+  (0 < jw)%N -> (0 < jr)%N -> (0 < rbuf)%N -> (rbuf mod 8 = 0)%N ->
+  let B := h_bsize c in
+  exists s1 s2 frames,
+    do_writes B jw hw (init_w jw) ws = (s1, true) /\
+    w_close B jw hw (fun _ => false) s1 false false = (s2, false) /\
+    parse_stream hash evalid tvalid nframes rbuf sched (write_stream hash c (map snd (w_out s2))) = Some (norm_cfg c, frames) /\
+    fst (do_reads B jr hr (init_r (map frame_of frames)) ns) = spec_reads (concat ws) ns.
+Proof. exact end_to_end_none. Qed.
+Print Assumptions C01_end_to_end_none.
